@@ -241,6 +241,42 @@ func (w *World) fireFault(f *Fault) {
 	}
 }
 
+// awaitStream blocks until stream op.Stream has reached a progress point (Shape 0: opened on the
+// client, 1: the client has read N messages, 2: the handler has read N messages, 3: the handler has
+// written N messages, 4: the handler has started), or 3 s of simulated time have passed. What follows
+// the op runs at the very instant the other party moves on to its next stream operation.
+func (w *World) awaitStream(op *Op) {
+	if op.Stream >= len(w.Streams) {
+		return
+	}
+	rec := w.Streams[op.Stream]
+	deadline := simrt.Now() + 3*time.Second
+	for {
+		ok := false
+		switch op.Shape {
+		case 0:
+			ok = rec.stream != nil
+		case 1:
+			ok = len(rec.CGot) >= op.N
+		case 2:
+			ok = len(rec.SGot) >= op.N
+		case 3:
+			ok = len(rec.SSent) >= op.N
+		case 4:
+			ok = rec.HandlerStart != 0
+		}
+		if ok {
+			w.Probe("stream-progress-point-reached")
+			return
+		}
+		left := deadline - simrt.Now()
+		if left <= 0 || w.Closing {
+			return
+		}
+		simrt.ParkTimeout(&w.streamEvQ, left)
+	}
+}
+
 func (w *World) opDone() {
 	w.opsDone++
 	for i := range w.P.Faults {
@@ -351,7 +387,7 @@ func (w *World) checkReply(c *CallRec) {
 		c.ReplyWhy = fmt.Sprintf("reply payload length %d, want %d", len(got.Pad), c.Rep)
 	case !PadOK(got.Pad, RepKey(c.ID)):
 		c.ReplyWhy = "reply payload differs from the handler's output"
-	case int(got.Server)/1000 != w.wantServer(c):
+	case !(w.TS != nil && w.TS.C != nil) && int(got.Server)/1000 != w.wantServer(c): // (a Client chooses the server itself)
 		c.ReplyWhy = fmt.Sprintf("reply from server %d, call was addressed to server %d", got.Server/1000, w.wantServer(c))
 	default:
 		c.ReplyOK = true
@@ -525,6 +561,8 @@ func (w *World) runClient(ci int) {
 			for i := 0; i < op.N; i++ {
 				simrt.Gosched()
 			}
+		case "await":
+			w.awaitStream(op)
 		case "wait":
 			for _, c := range outstanding {
 				w.waitAsync(c)
@@ -558,13 +596,16 @@ func (w *World) streamOp(ci int, conn *rpc.Conn, op *Op) {
 	rec := w.Streams[op.Stream]
 	switch op.Kind {
 	case "sopen":
+		rec.CallBlocked = "open"
 		st, err := conn.NewStream(w.streamMethod(op.Stream))
+		rec.CallBlocked = ""
 		if err != nil {
 			rec.OpenErr = err.Error()
 			return
 		}
 		rec.Opened = true
 		rec.stream = st
+		w.streamEvQ.WakeAll()
 	case "swrite":
 		if rec.stream == nil {
 			return
@@ -626,6 +667,7 @@ func (w *World) streamOp(ci int, conn *rpc.Conn, op *Op) {
 			}
 			w.retain(m.Pad, "stream-msg", m.ID)
 			rec.CGot = append(rec.CGot, m.ID)
+			w.streamEvQ.WakeAll()
 		}
 	case "safter":
 		if rec.stream == nil || rec.ClientReadErr == "" {
@@ -659,7 +701,9 @@ func (w *World) streamOp(ci int, conn *rpc.Conn, op *Op) {
 		if rec.stream == nil {
 			return
 		}
+		rec.CallBlocked = "close"
 		err := rec.stream.Close()
+		rec.CallBlocked = ""
 		rec.Closed = true
 		if err != nil {
 			rec.CloseErr = err.Error()
